@@ -67,12 +67,20 @@ pub fn shape_module(feat: &[String]) -> Vec<u8> {
             w += "  (import \"env\" \"m\" (memory 1 2))\n";
         }
         w += "  (import \"env\" \"t\" (table 1 funcref))\n";
+        if has("tag") {
+            // an imported tag: it belongs to no function/global/memory/table index space
+            w += "  (import \"env\" \"tg\" (tag $itg (param i32)))\n";
+        }
     }
     if has("tag") {
         w += "  (tag $tg (param i32))\n";
     }
     w += "  (func $f0 (type $t0) (local $l0 i32) (local f32 f32) (local $l3 i64)\n    i32.const -1 local.set $l0 f32.const nan:0x200001 drop f64.const -nan:0x8000000000001 drop\n    v128.const i32x4 0xffffffff 0x80000000 1 0 drop i64.const -9223372036854775808 drop)\n";
     w += "  (func $f1 (type $t1) (local externref) local.get 0 i64.extend_i32_s)\n";
+    if has("exports") {
+        // block types naming NON-nullable abstract references (f0 is declared by its export)
+        w += "  (func $fr (type $t0) (block (result (ref func)) ref.func $f0) drop (block (result (ref extern)) unreachable) drop (block (result funcref) ref.null func) drop)\n";
+    }
     if has("table") {
         w += "  (table $tb 4 8 funcref)\n";
     }
